@@ -1,4 +1,5 @@
 import BufrProofs.Codec
+import BufrProofs.Bitmap
 /-
   C05 — Decoding arbitrary bytes is memory-safe, terminates and never kills the process.  (partial)
 
@@ -55,7 +56,28 @@ theorem C05_expansion_bounded (T : Tables) (edition s4max : Nat) (nodes : List N
     (by omega) hok
   exact ⟨_, e⟩
 
+/-- **the data present bit-map arrays are never indexed out of bounds**, for any template (delayed
+replication, any operators, bit-maps announced twice, shorter or longer than the data) and any
+data: along the whole decode of a subset the three `nb_codes`-sized arrays of `BufrDPBM` satisfy
+what the C subscripts rely on — `dp[nb_dp++] = i` is executed at most `nb_codes` times (the bit-map
+is evaluated once: `dp = []` as long as `remain_dpi ≥ 0`, and `remain_dpi` is −1 afterwards), and
+every `dp` entry is a valid subscript of `index[]`.  (`dp[idp-1]` is guarded by the C itself.) -/
+theorem C05_bitmap_in_bounds (T : Tables) (edition s4max fuel : Nat) (ddo : DDO) (st : DecSt) (done todo : List Node)
+    (st' : DecSt) (out : List Node) (fin : SubsetEnd) (bm' : BM)
+    (h : decodeSubsetLoopB T edition s4max fuel ddo {} st done todo = .ok (st', out, fin, bm')) : bm'.WF :=
+  decodeSubsetLoopB_WF T edition s4max fuel ddo {} st done todo st' out fin bm' (by simp [BM.WF]) h
+
+/-- the same, step by step: whatever node comes next -/
+theorem C05_bitmap_step (T : Tables) (edition : Nat) (bsq : List Node) (ddo : DDO) (bm : BM) (n : Node) (h : bm.WF) :
+    (applyTables2nodeB T edition bsq ddo bm n).2.1.WF :=
+  applyTables2nodeB_WF T edition bsq ddo bm n h
+
 /-! ### Non-vacuity -/
+-- a bit-map of three bits over three elements, two flagged present: evaluated in the kernel
+example : (initDpbm { index := [1, 2, 3] }
+    [{ desc := 12101 }, { desc := 224000 }, { desc := 236000 },
+     { desc := 31031, val := .i32 0 }, { desc := 31031, val := .i32 (-1) }, { desc := 31031, val := .i32 0 }] (some 2)).dp = [0, 2] := by
+  decide
 example : RInv (R.ofBytes [1, 2, 3]) ∧ (R.ofBytes [1, 2, 3]).pos ≤ 8 * (R.ofBytes [1, 2, 3]).maxDataLen :=
   ⟨⟨by decide⟩, by decide⟩
 example : ((R.ofBytes [1, 2, 3]).getbits 25).2.1 < 0 := by decide
